@@ -258,6 +258,13 @@ def container_values(mod, t, two=False, depth=0):
             for m in opt:
                 v.pop(m.name)
             out.append(v)
+            # ... and exactly one of them present
+            for keep in opt:
+                v = dict(full)
+                for m in opt:
+                    if m is not keep:
+                        v.pop(m.name)
+                out.append(v)
         if two:
             for a, b in itertools.combinations(ms, 2):
                 for va in per[a.name][:6]:
